@@ -209,8 +209,16 @@ theorem stepR_pot {sh th o} (h : StepR sh th o)
     have := hsnap ty
     simp only [phi, hpc, hfr, hp, pcC, framesC_cons, framesC_nil, progC_cons, opC, bodyC_nil, newFrame, wsum_nil]
     omega
-  case lock r a f fs hpc hfr hfree =>
+  case lock r a f fs hpc hfr hfree hl =>
     simp only [phi, hpc, hfr, pcC, framesC_cons, wsum_nil]
+    omega
+  case lockDeadJob r a j f hpc hj hfr hfree hl =>
+    simp only [phi, hpc, hfr, pcC, framesC_cons, framesC_nil, wsum_nil]
+    omega
+  case lockDeadSync r a f fs hpc hfr hj hfree hl hsh =>
+    have := dshape_pot w hsh
+    simp only [hsh.new_nil, wsum_nil]
+    simp only [phi, hpc, hfr, pcC, framesC_cons] at this ⊢
     omega
   case astartRun j hpc hj hs hl =>
     simp only [phi, hpc, hj, pcC, framesC_cons, framesC_nil, jobFrame, if_true, restC_nil, wsum_nil]
@@ -374,6 +382,8 @@ theorem stepR_eff {sh th o} (h : StepR sh th o) :
   case spawn r n t f fs o hpc hfr hsh =>
     exact ⟨.inl ⟨by simp only; rw [hsh.regs_eq.1]; exact List.Sublist.refl _, [], by simp [shape_prog hsh]⟩, by simp⟩
   case exit r f fs hpc hfr hj hsh =>
+    exact ⟨.inl ⟨by rw [hsh.regs_eq.1]; exact List.Sublist.refl _, [], by simp [shape_prog hsh]⟩, by simp [hsh.new_nil]⟩
+  case lockDeadSync r a f fs hpc hfr hj hfree hl hsh =>
     exact ⟨.inl ⟨by rw [hsh.regs_eq.1]; exact List.Sublist.refl _, [], by simp [shape_prog hsh]⟩, by simp [hsh.new_nil]⟩
   all_goals exact ⟨.inl ⟨by simp, [], by simp⟩, by simp⟩
 
